@@ -43,8 +43,15 @@ RULE = ("cases = (class in 6 field classes) x (each operator the class supports;
         "sample stratified so that every (class, operator) is hit at least twice; non-trivial = non-empty operands whose result differs "
         "between the forward and the reflected operand order or a unary operator; distinct = distinct case dict.")
 ASSUMPTIONS = ["numpy element-wise arithmetic and promotion (opaque: the property's right-hand side is numpy)",
-               "h5py stores and returns arrays faithfully"]
-TRUSTED = ["Lean 4.33 kernel", "axioms propext/Classical.choice/Quot.sound only", "tools/translate.py", "checks/harness/c13.py"]
+               "h5py stores and returns arrays faithfully; writing an array into a dataset of its own dtype stores it unchanged "
+               "(hypothesis `hcast` of setitem_stores_result)",
+               "numpy's comparisons are mirror-symmetric, a < b = b > a element-wise (hypothesis `MirrorLaw` of "
+               "reflected_comparison_eq_numpy; needed only for `ndarray/scalar <cmp> field`, where Python itself calls the mirrored dunder)",
+               "numpy's `binop_should_defer`: ndarray / numpy-scalar operators return NotImplemented for a right operand whose class "
+               "sets `__array_ufunc__ = None` (modelled by `FieldOps.defers` over the regenerated class attributes)",
+               "`r.dtype == np.T` holds exactly for results of scalar type T (how `dtype_to_str` identifies a dtype)"]
+TRUSTED = ["Lean 4.33 kernel", "axioms propext/Classical.choice/Quot.sound only", "tools/translate.py", "tools/translate_dtype.py",
+           "tools/translate_fieldops.py", "checks/harness/c13.py"]
 
 ARITH10 = ["__add__", "__radd__", "__sub__", "__rsub__", "__mul__", "__rmul__", "__truediv__", "__rtruediv__",
            "__floordiv__", "__rfloordiv__"]
